@@ -73,6 +73,10 @@ def flag_writer(prog):
             return h
         cands = [m for m in fxp_methods(prog) if m.name not in ("__init__", "reset") and m is not h and stores(m)]
         if len(cands) == 1:
+            # a helper the handler itself calls is part of the handler (it is inlined into the handler's paths)
+            called = {c.func.attr for c in calls_in(h.node) if isinstance(c.func, ast.Attribute)} | {c.func.id for c in calls_in(h.node) if isinstance(c.func, ast.Name)}
+            if cands[0].name in called:
+                return h
             return cands[0]
         return h
     return _memo(prog, "flagw", find)
